@@ -1,4 +1,5 @@
 import P2.Proofs.Reorder
+import P2.Proofs.ParStage
 import P2.Model.Interleave
 /-! # C06 — lazy list pipelines give the sequential result under every parallel schedule
 
@@ -7,6 +8,13 @@ worker of `tie C06`.
 
 * `collector_in_order` — the collector of `iterator.initParallel/MapParallel` (`nextOut`, the buffer
   map, the drain loop) hands the worker results on in index order for EVERY arrival order.
+* `parallel_prefix`, `parallel_eq_sequential` — the data-carrying process model of a parallel
+  `map`/`accept` stage (`P2.ParStage`: main loop, workers holding results, collector, the consumer wrapper
+  of `autoParallelStage` with `stopped`/dropped items): under EVERY schedule of dispatches and arrivals
+  the downstream consumer has received a prefix of what the sequential stage hands it, and exactly the
+  sequential result (values, the error and its position, the stop point) once the stage is over.
+  `pinned_sticky_error_differs`: the collector as driven before the repair d35d227 (workers returned
+  errors, the collector kept the first one that ARRIVED) fails this on a three-element source.
 * `stack_noninterference` — threads are sequences of writes/reads on (storage, slot); if the other
   thread never touches a storage of thread A then under EVERY interleaving A reads exactly what it
   reads when run alone. `Oblig/Stages.lean` checks, on the table regenerated from `value/*.go`, that
@@ -25,6 +33,64 @@ theorem collector_in_order {α : Type} (start n : Nat) (vals : Nat → α) (is :
 
 /-- non-vacuity: a concrete arrival order -/
 example : P2.Reorder.collect 12 ([14, 12, 13].map fun i => (i, i * 10)) = [120, 130, 140] := by decide
+
+/-- C06.2 (safety, every reachable state of every schedule): what the downstream consumer has received
+is what the sequential stage hands it for the first `nextOut` source items. -/
+theorem parallel_prefix {α β : Type} (items : List α) (f : α → P2.ParStage.Out β)
+    (more : List (P2.ParStage.Out β) → Bool) (workers : Nat) (s : P2.ParStage.St β)
+    (h : P2.ParStage.Reach items f workers s) :
+    s.c.nextOut ≤ items.length ∧
+    P2.ParStage.delivered more s = P2.ParStage.seqRun more ((items.map f).take s.c.nextOut) := by
+  have hJ := P2.ParStage.reach_J h
+  refine ⟨Nat.le_trans (P2.ParStage.nextOut_le_next hJ) hJ.bound, ?_⟩
+  unfold P2.ParStage.delivered P2.ParStage.seqRun
+  rw [P2.ParStage.out_is_prefix hJ]
+
+/-- C06.2: parallel = sequential. For every source, every (pure) worker function, every downstream
+consumer (`more` decides after each delivery whether it wants more), every number of workers and EVERY
+schedule: when the stage is over the consumer has received exactly what the sequential stage hands it —
+the same values in the same order, the same error at the same position, the same stop point. -/
+theorem parallel_eq_sequential {α β : Type} (items : List α) (f : α → P2.ParStage.Out β)
+    (more : List (P2.ParStage.Out β) → Bool) (workers : Nat) (s : P2.ParStage.St β)
+    (h : P2.ParStage.Reach items f workers s) (hfin : P2.ParStage.final items more s) :
+    P2.ParStage.delivered more s = P2.ParStage.seqRun more (items.map f) := by
+  have hJ := P2.ParStage.reach_J h
+  obtain ⟨hfl, hend⟩ := hfin
+  have hpre := (parallel_prefix items f more workers s h).2
+  have hn := P2.ParStage.nextOut_eq_next hJ hfl
+  rcases hend with hall | hstop
+  · rw [hpre, hn, hall]
+    have : (items.map f).take items.length = items.map f := by
+      rw [List.take_of_length_le]; simp
+    rw [this]
+  · rw [hpre] at hstop ⊢
+    exact (P2.ParStage.seqRun_take_stopped more (items.map f) _ hstop).symm
+
+section
+open P2.ParStage
+/-- non-vacuity: three items on three workers, the results arrive in the order 2, 0, 1; the state is
+reachable and final, and the consumer (which stops after two deliveries) got items 0 and 1 -/
+example : ∃ s : St Nat, Reach [10, 20, 30] (fun x => Out.val (x + 1)) 3 s ∧
+    final [10, 20, 30] (fun d => decide (d.length < 2)) s ∧
+    (delivered (fun d => decide (d.length < 2)) s).1 = [.val 11, .val 21] := by
+  refine ⟨_, Reach.step (Reach.step (Reach.step (Reach.step (Reach.step (Reach.step Reach.init
+    (Step.dispatch _ (by decide) (by decide))) (Step.dispatch _ (by decide) (by decide)))
+    (Step.dispatch _ (by decide) (by decide))) (Step.arrive _ 2 (by decide))) (Step.arrive _ 0 (by decide)))
+    (Step.arrive _ 1 (by decide)), ?_, ?_⟩
+  · unfold final; decide
+  · decide
+
+/-- the collector as it was driven before the repair: the result of item 2 (an error) arrives first,
+the consumer wanted two items only; it receives the error of item 2 in place of item 0 -/
+theorem pinned_sticky_error_differs :
+    (collectPinned [(2, Out.err "x"), (0, Out.val 0), (1, Out.val 1)]).foldl
+        (emit fun d => decide (d.length < 2)) ([], false)
+      ≠ seqRun (fun d => decide (d.length < 2)) [Out.val 0, Out.val 1, Out.err "x"] := by decide
+
+/-- … while the repaired collector, fed the same arrivals, hands them on as they are -/
+example : P2.Reorder.collect 0 [(2, Out.err "x"), (0, Out.val 0), (1, Out.val 1)] = [Out.val 0, Out.val 1, Out.err "x"] := by
+  decide
+end
 
 /-- C06.3: no interference under every schedule when the storages are disjoint -/
 theorem stack_noninterference (S : Nat → Prop) (sch : List Bool) (as bs : List P2.Inter.Act)
